@@ -31,6 +31,7 @@ func VC12_SameConnection() {
 		conns = append(conns, fakenet.NewTCPConn(wListenAddr+":5060", "10.0.2.2:"+itoa(port)))
 	}
 	var txns []c12Txn
+	var branches []string
 	// requests: connection-major or transaction-major order
 	major := rt.Bool("txn-major")
 	for a := 0; a < NC*NT; a++ {
@@ -47,7 +48,12 @@ func VC12_SameConnection() {
 		}
 		method := c12Methods[rt.Choice("method", rt.Param("M"))]
 		callID := "c" + itoa(c) + "t" + itoa(t)
-		branch := "z9hG4bK" + itoa(c) + "x" + itoa(t) + rt.Str("br", "alnum", 0, L)
+		// pairwise distinct branches: the magic cookie followed by a symbolic value
+		branch := "z9hG4bK" + rt.Str("br", "[0-9a-fzhGK]", 1, L+2)
+		for _, b := range branches {
+			rt.Assume(b != branch)
+		}
+		branches = append(branches, branch)
 		req := method + " sip:svc@" + wService + " SIP/2.0\r\nVia: SIP/2.0/TCP " + sentBy + ";branch=" + branch + "\r\nFrom: <sip:u" + itoa(c) + "@example.com>;tag=f\r\nTo: <sip:svc@" + wService +
 			">\r\nCall-ID: " + callID + "\r\nCSeq: 1 " + method + "\r\nContent-Length: 0\r\n\r\n"
 		before := len(w.bs[0].sent)
